@@ -81,4 +81,16 @@ theorem ttl_field_eq (created ttl now : Int) (h : 0 ≤ ttl) :
       rw [Int.fdiv_eq_ediv_of_nonneg _ (by simp)]
       simp [hn]
 
+/-! NSEC bitmap leaves -/
+theorem nsec_small_accepted (t : Nat) (h : t ≤ 255) : nsec_type_too_large t = false := by
+  simp [nsec_type_too_large]; omega
+
+theorem nsec_byte_eq (t : Nat) : nsec_byte t = t / 8 := rfl
+theorem nsec_total_eq (b : Nat) : nsec_total_octets b = b + 1 := rfl
+
+theorem nsec_mask_eq (t : Nat) : nsec_mask t = 2 ^ (7 - t % 8) := by
+  unfold nsec_mask
+  have key : ∀ r, r < 8 → 128 >>> r = 2 ^ (7 - r) := by decide
+  exact key _ (Nat.mod_lt _ (by omega))
+
 end Zc.GenFacts.Outgoing
